@@ -23,7 +23,31 @@ def load_mutants(pid):
     return json.load(open(p))
 
 
+def load_campaign(pid):
+    """The outside changes kept under /verif/benign and /verif/seeded as further self-validation cases for one property:
+    every behaviour-preserving refactoring must not be reported as a violation (pass, or analysis-broken where a rule does
+    not recognise the new shape), and every seeded defect that this property's check is recorded to catch must still be."""
+    out = []
+    bd = os.path.join(VERIF, "benign")
+    for sid in sorted(os.listdir(bd)) if os.path.isdir(bd) else []:
+        pf = os.path.join(bd, sid, "patch.diff")
+        if os.path.exists(pf):
+            out.append({"name": "refactoring-" + sid, "patch": pf, "expect": "no-violation"})
+    sd = os.path.join(VERIF, "seeded")
+    for sid in sorted(os.listdir(sd)) if os.path.isdir(sd) else []:
+        pf, mf = os.path.join(sd, sid, "patch.diff"), os.path.join(sd, sid, "meta.json")
+        if os.path.exists(pf) and os.path.exists(mf):
+            meta = json.load(open(mf))
+            rules = (meta.get("checks_reporting_violation") or {}).get(pid.upper())
+            if rules:
+                out.append({"name": "seeded-" + sid, "patch": pf, "expect": "violation"})
+    return out
+
+
 def apply_edit(root, m):
+    if m.get("patch"):
+        r = subprocess.run(["patch", "-p1", "-s", "-d", root, "-i", m["patch"]], capture_output=True, text=True)
+        return None if r.returncode == 0 else "edit anchor not found: patch does not apply (%s)" % (r.stdout + r.stderr)[-120:]
     path = os.path.join(root, "include", m.get("file", "SplineTrajectory.hpp"))
     s = open(path).read()
     edits = m.get("edits") or [{"old": m["old"], "new": m["new"], "nth": m.get("nth", 0), "count": m.get("count")}]
@@ -69,17 +93,17 @@ def run_one(pid, m, repo="/repo", keep=False):
             shutil.rmtree(d, ignore_errors=True)
 
 
-def validate(pid, only=None, repo="/repo", verbose=True):
+def validate(pid, only=None, repo="/repo", verbose=True, campaign=False):
     """Returns (n_ok, problems)."""
     from concurrent.futures import ThreadPoolExecutor
-    ms = [m for m in load_mutants(pid) if not (only and only not in m["name"])]
+    ms = [m for m in load_mutants(pid) + (load_campaign(pid) if campaign else []) if not (only and only not in m["name"])]
     ok = 0
     problems = []
     with ThreadPoolExecutor(max_workers=int(os.environ.get("VERIF_JOBS", "12"))) as ex:
         results = list(ex.map(lambda m: run_one(pid, m, repo), ms))
     for m, (got, out) in zip(ms, results):
         want = m.get("expect", "violation")
-        good = got == want
+        good = got == want or (want == "no-violation" and got in ("pass", "broken"))
         if good and want == "violation" and m.get("rule"):
             good = m["rule"] in out
         if got == "anchor-missing":
@@ -100,7 +124,7 @@ def validate(pid, only=None, repo="/repo", verbose=True):
 
 if __name__ == "__main__":
     pid = sys.argv[1].upper()
-    only = sys.argv[2] if len(sys.argv) > 2 else None
-    ok, problems = validate(pid, only)
+    only = next((a for a in sys.argv[2:] if not a.startswith("--")), None)
+    ok, problems = validate(pid, only, campaign="--campaign" in sys.argv)
     print("%s: %d mutants behaved as expected, %d did not" % (pid, ok, len(problems)))
     sys.exit(0 if not problems else 2)
